@@ -488,8 +488,9 @@ func (p *Parser) node() (Node, error) {
 	if err != nil {
 		return nil, err
 	}
-	if node, ok := node.(Binding); ok {
-		node.idx = p.bindingIndex(node.Name)
+	if b, ok := node.(Binding); ok {
+		b.idx = p.bindingIndex(b.Name)
+		node = b
 	}
 	return node, nil
 }
